@@ -223,7 +223,7 @@ def gen_c18(rng, oracle_factory, index, tier="quick"):
     for it in sorted(g.its):
         if rng.random() < 0.6:
             g.emit({"op": "drain", "it": it})
-    meta = {"profile": p, "fired": g.fired, "events": g.events, "skipped": g.skipped,
+    meta = {"profile": p, "fired": g.fired, "events": g.events, "skipped": g.skipped, "hits": g.hits,
             "versions": len(versions), "max_depth": max(depth.values())}
     return g.ops, meta
 
